@@ -405,3 +405,5 @@ _extend("C16", "the prior dictionary is given in a permuted key order in half of
 _extend("C17", "plain cell states are cloned at times 0, negative and positive with birth times -4 .. 3, the time written by the setter.")
 _extend("C18", "one case in five has a rate constant in the thousands (the difference step is small against the value).")
 _extend("C19", "one lineage case in four runs on a simulator object that has produced a lineage of the same model before.")
+_extend("C12", "one assignment rule in four is written with minimal parentheses and a unary minus in front of a power "
+               "(exp(-A^2), -A^2 + f, -(A - B)^2).")
